@@ -14,7 +14,7 @@ let () =
   (* input "<cfg> & <cfg> & <cfg> # seed kp ks | journal"; model: the check verdict of the journal *)
   register "C05.variants" (fun inp obs ->
     let (_, j) = split_input inp in
-    let cls = (match K.check_cmd true (decode_journal j) with K.COk _ -> "OK" | K.CErr _ -> "ERR" | K.CPanic _ -> "PANIC") in
+    let cls = (match K.check_cmd_fixed (decode_journal j) with K.COk _ -> "OK" | K.CErr _ -> "ERR" | K.CPanic _ -> "PANIC") in
     let model = "check=" ^ cls in
     let spec = if last_part obs = "variants=same" then "ok" else "FAIL:" ^ last_part obs in
     (model, spec));
